@@ -749,8 +749,11 @@ impl XmlAttribute {
             let attr = attr.as_attribute().unwrap();
             self.values.borrow_mut().clear();
 
+            // the new value items follow the attribute in document order
+            let mut last = self.id();
             for v in attr.borrow().values.borrow().as_slice() {
-                v.init_order_recursive();
+                v.place_after(last);
+                last = v.id();
                 v.set_parent_id(Some(self.id()));
             }
 
@@ -895,6 +898,14 @@ impl XmlAttributeValue {
             XmlAttributeValue::Char(v) => v.set_parent_id(parent_id),
             XmlAttributeValue::Entity(v) => v.set_parent_id(parent_id),
             XmlAttributeValue::Text(ref v) => v.set_parent_id(parent_id),
+        }
+    }
+
+    fn place_after(&self, id: usize) -> Option<usize> {
+        match self {
+            XmlAttributeValue::Char(v) => v.place_subtree_after(id),
+            XmlAttributeValue::Entity(v) => v.place_subtree_after(id),
+            XmlAttributeValue::Text(ref v) => v.place_subtree_after(id),
         }
     }
 }
